@@ -189,6 +189,7 @@ int main()
     {
         if (line.empty())
             continue;
+        vh::case_alarm(30); // a hang is an observation (`abort:timeout`), not a blocked run
         auto f = vh::fields(line);
         int N = std::stoi(f["N"]);
         std::string cbs = f.count("cbs") ? f["cbs"] : "";
